@@ -46,6 +46,7 @@ func runC01(p *Prog, r *Report) {
 		}
 	}
 	accessibilityRule(p, r, "C01.R4")
+	accessibleRule(p, r, "C01.R4b")
 }
 
 // reservedNames reads the initial lookup set from the map literal in namer.New.
